@@ -156,17 +156,17 @@ def run(ctx):
         over = {}
         for c in sess.CLIENTS:
             rec = {}
-            st = rng.choice(TYPES) if si > 0 else {"client_1": "pairwise", "client_2": "pairwise", "client_3": "public"}[c]
+            st = rng.choice(TYPES) if si > 0 else {"client_1": "pairwise", "client_2": "pairwise", "client_12": "public"}[c]
             if st:
                 rec["subject_type"] = st
-            sec = rng.choice(SECTORS) if si > 0 else {"client_1": SECTORS[1], "client_2": SECTORS[2], "client_3": None}[c]
+            sec = rng.choice(SECTORS) if si > 0 else {"client_1": SECTORS[1], "client_2": SECTORS[2], "client_12": None}[c]
             if sec:
                 rec[rng.choice(["sector_id", "sector_identifier_uri"])] = sec
             over[c] = rec
         if si == 1:      # same sector through different sources and spellings
             over = {"client_1": {"subject_type": "pairwise", "sector_id": SECTORS[1]},
                     "client_2": {"subject_type": "pairwise", "sector_identifier_uri": SECTORS[3]},
-                    "client_3": {"subject_type": "ephemeral"}}
+                    "client_12": {"subject_type": "ephemeral"}}
         rs = sess.RealSession(oidc=True, jwt_access=jwt, client_over=over)
         try:
             salt = rs.sm.get_salt()
